@@ -320,13 +320,17 @@ class KMeansMachine(BaseEstimator):
         data = da.array(data)
         data.rechunk(1, data.shape[-1])  # Prevents issue with large arrays.
         logger.debug("Get k-means centroids")
-        self.centroids_ = k_init(
-            X=data,
-            n_clusters=self.n_clusters,
-            init=self.init_method,
-            random_state=self.random_state,
-            max_iter=self.init_max_iter,
-            oversampling_factor=self.oversampling_factor,
+        # k_init returns a given array of centroids as is: copy, so that the
+        # machine never shares memory with the caller's array
+        self.centroids_ = np.array(
+            k_init(
+                X=data,
+                n_clusters=self.n_clusters,
+                init=self.init_method,
+                random_state=self.random_state,
+                max_iter=self.init_max_iter,
+                oversampling_factor=self.oversampling_factor,
+            )
         )
         logger.debug("End of k-means initialization")
 
